@@ -1055,4 +1055,7 @@ func main() {
 
 	// (D) the scanner against its translation (scan.go)
 	scannerCases(o, corpus)
+
+	// (F) the decoder against its translation (dec.go)
+	decoderCases(o, corpus)
 }
